@@ -23,6 +23,7 @@ Configurations that crash inside the library on the unchanged repo are listed
 in `EXCLUDED` (with the exact exception) instead of `CASES`.
 """
 
+import copy
 import inspect
 import sys
 import time
@@ -358,19 +359,19 @@ def reg_data(seed):
 # light models (always new objects)
 # --------------------------------------------------------------------------
 def pwc(**kw):
-    kw.setdefault("classes", CLASSES)
+    kw.setdefault("classes", list(CLASSES))
     kw.setdefault("random_state", 0)
     return ParzenWindowClassifier(**kw)
 
 
 def sk_lr(**kw):
-    kw.setdefault("classes", CLASSES)
+    kw.setdefault("classes", list(CLASSES))
     kw.setdefault("random_state", 0)
     return SklearnClassifier(LogisticRegression(max_iter=50), **kw)
 
 
 def sk_gnb(**kw):
-    kw.setdefault("classes", CLASSES)
+    kw.setdefault("classes", list(CLASSES))
     kw.setdefault("random_state", 0)
     return SklearnClassifier(GaussianNB(), **kw)
 
@@ -378,7 +379,7 @@ def sk_gnb(**kw):
 def sk_bagging_clf():
     return SklearnClassifier(
         BaggingClassifier(GaussianNB(), n_estimators=3, random_state=0),
-        classes=CLASSES,
+        classes=list(CLASSES),
         random_state=0,
     )
 
@@ -390,6 +391,13 @@ def sk_linreg():
 def sk_tree_reg():
     return SklearnRegressor(
         DecisionTreeRegressor(min_samples_leaf=2, random_state=0),
+        random_state=0,
+    )
+
+
+def sk_tree_reg3():
+    return SklearnRegressor(
+        DecisionTreeRegressor(min_samples_leaf=3, random_state=0),
         random_state=0,
     )
 
@@ -409,21 +417,21 @@ def nic(**kw):
 def mmc_gmm():
     return MixtureModelClassifier(
         mixture_model=GaussianMixture(n_components=2, random_state=0),
-        classes=CLASSES,
+        classes=list(CLASSES),
         random_state=0,
     )
 
 
 def annot_lr():
     return AnnotatorLogisticRegression(
-        classes=CLASSES, max_iter=20, random_state=0
+        classes=list(CLASSES), max_iter=20, random_state=0
     )
 
 
 def annot_ens():
     return AnnotatorEnsembleClassifier(
         estimators=[(f"pwc{i}", pwc()) for i in range(3)],
-        classes=CLASSES,
+        classes=list(CLASSES),
         voting="soft",
         random_state=0,
     )
@@ -501,7 +509,7 @@ def _mk(cls, **params):
 
     def build():
         p = {
-            k: (v() if getattr(v, "_fresh", False) else v)
+            k: (v() if getattr(v, "_fresh", False) else copy.deepcopy(v))
             for k, v in params.items()
         }
         return cls(**p)
@@ -703,7 +711,7 @@ pool_case(P.Quire, "lmbda-0.5-linear",
 pool_case(P.FourDs, "default", models=M(clf=mmc_gmm), lazy_none=("lmbda",))
 pool_case(P.FourDs, "lmbda-0.5", {"lmbda": 0.5}, models=M(clf=mmc_gmm))
 pool_case(P.FourDs, "clf-mixture-None",
-          models=M(clf=lambda: MixtureModelClassifier(classes=CLASSES,
+          models=M(clf=lambda: MixtureModelClassifier(classes=list(CLASSES),
                                                       random_state=0)),
           lazy_none=("lmbda",))
 
@@ -873,12 +881,22 @@ pool_case(P.GreedySamplingTarget, "method-GSi-metrics-linreg",
 
 pool_case(P.RegressionTreeBasedAL, "default", models=M(reg=sk_tree_reg),
           data=RD)
-for _m in ("diversity", "representativity"):
-    pool_case(P.RegressionTreeBasedAL, f"method-{_m}", {"method": _m},
-              models=M(reg=sk_tree_reg), data=RD)
+pool_case(P.RegressionTreeBasedAL, "method-diversity", {"method": "diversity"},
+          models=M(reg=sk_tree_reg), data=RD)
+EXCLUDED.append((
+    "pool", "RegressionTreeBasedAL", "method='representativity' (data dependent)",
+    "ValueError: n_samples=1 should be >= n_clusters=2. (a leaf is assigned "
+    "more clusters than it holds candidates; seen for seeds 1, 20, 39 with "
+    "cand_mode 'idx' and seeds 18, 20, 24, ... with 'arr'; never with "
+    "candidates=None on this data; seed 0 is fine in all modes)"))
+_RT_NOTE = ("data dependent library crash for some seeds with 5 explicit "
+            "candidates, see EXCLUDED; candidates=None is robust")
+pool_case(P.RegressionTreeBasedAL, "method-representativity",
+          {"method": "representativity"}, models=M(reg=sk_tree_reg3), data=RD,
+          note=_RT_NOTE)
 pool_case(P.RegressionTreeBasedAL, "method-representativity-iter-2",
           {"method": "representativity", "max_iter_representativity": 2},
-          models=M(reg=sk_tree_reg), data=RD)
+          models=M(reg=sk_tree_reg3), data=RD, note=_RT_NOTE)
 
 # wrappers ------------------------------------------------------------------
 _US = fresh(lambda: P.UncertaintySampling(random_state=0))
@@ -1067,7 +1085,7 @@ stream_case(S.FixedUncertainty, "default", {"classes": CLASSES},
 stream_case(S.FixedUncertainty, "bm-explicit",
             {"classes": CLASSES, "budget_manager": fresh(
                 lambda: B.FixedUncertaintyBudgetManager(
-                    classes=CLASSES, w=4, budget=0.25))},
+                    classes=list(CLASSES), w=4, budget=0.25))},
             models=M(clf=sk_gnb), lazy_none=("budget",))
 stream_case(S.FixedUncertainty, "budget-0.5",
             {"classes": CLASSES, "budget": 0.5},
@@ -1330,7 +1348,7 @@ clf_case(SklearnClassifier, "lr-classes-cost_matrix",
          predict=PP)
 
 # SlidingWindowClassifier
-_SW_GNB = fresh(lambda: SklearnClassifier(GaussianNB(), classes=CLASSES,
+_SW_GNB = fresh(lambda: SklearnClassifier(GaussianNB(), classes=list(CLASSES),
                                           random_state=0))
 _SW_PWC = fresh(lambda: pwc())
 clf_case(SlidingWindowClassifier, "default",
